@@ -686,6 +686,23 @@ def run(ctx):
     from . import c03 as _c03
     _core.run_proxied(ctx, _c03, 'R08i', ('R03d', 'R03f'))
 
+    # ---- R08j: specials made of characters the encoder copies through
+    ctx.rule('R08j', 'a specials sequence of the default walker table whose characters the default encoder all copies '
+                     'through unescaped (printable ASCII without a table entry) is one of the documented ASCII ligatures '
+                     '(`` \'\' -- --- !` ?`): any other would turn ordinary input text into another character on the way back', 6)
+    LIGATURES = ('``', "''", '--', '---', '!`', '?`')
+    wt_ = tables.WalkerTable(repo)
+    _m, enc_ = c13.load_map(repo, 'pylatexenc.latexencode._uni2latexmap')
+    for sq_ in sorted(wt_.specials):
+        if not sq_.strip():
+            continue            # the paragraph break: whitespace is outside the alphabet of the property
+        passthrough = all(32 <= ord(ch_) < 127 and ord(ch_) not in enc_ for ch_ in sq_)
+        ctx.decide('R08j', (not passthrough) or sq_ in LIGATURES, wt_.mod, wt_.specials[sq_]['rec'].node,
+                   'specials %r: %s' % (sq_, 'a documented ligature' if passthrough else 'contains a character the encoder escapes'),
+                   'the default tables declare the specials sequence %r, all of whose characters the encoder copies through '
+                   'unchanged: ordinary text containing %r is encoded as itself and converted back to another character, '
+                   'and it is not one of the documented ASCII ligatures' % (sq_, sq_), construct='walker specials %r' % sq_)
+
     return 'other', (
         'Evaluates the default encoder table against the evaluated default walker and latex2text '
         'tables with an abstract decoder: %d of %d entries decode to their own character, %d are '
